@@ -289,7 +289,7 @@ Gate(res) ==
   /\ IF cur.reqtls /\ (conn.tll < 2 \/ conn.mxl < 1)
      THEN res = "perm" /\ RetAddRcpt(res) /\ EndMsg
      ELSE IF cur.mailfail
-     THEN res = "temp" /\ RetAddRcpt(res) /\ EndMsg       \* MAIL refused: the connection is closed
+     THEN res \in {"temp", "perm"} /\ RetAddRcpt(res) /\ EndMsg   \* MAIL refused (4xx or 5xx): the connection is closed
      ELSE /\ res = "ok" /\ RetAddRcpt(res) /\ pc' = "body"
           /\ UNCHANGED <<k, cur, conn, pend, tl>>
 
